@@ -166,11 +166,18 @@ impl Ls {
         let hard_links = metadata.nlink();
         let user = {
             let uid = metadata.uid();
-            User::from_uid(Uid::from_raw(uid)).unwrap().unwrap().name
+            // Fall back to the number when there is no passwd entry.
+            match User::from_uid(Uid::from_raw(uid)) {
+                Ok(Some(user)) => user.name,
+                _ => uid.to_string(),
+            }
         };
         let group = {
             let gid = metadata.gid();
-            Group::from_gid(Gid::from_raw(gid)).unwrap().unwrap().name
+            match Group::from_gid(Gid::from_raw(gid)) {
+                Ok(Some(group)) => group.name,
+                _ => gid.to_string(),
+            }
         };
         let size = metadata.size();
         let last_modified = {
